@@ -62,7 +62,7 @@ _base = {}
 def baseline(prop):
     if prop not in _base:
         if 'F' not in _base:
-            _base['F'] = Facts(extract.extract('default'))
+            _base['F'] = Facts.build(extract.extract('default'))
         _base[prop] = {v['key'] for v in violations_for(prop, _base['F'])}
     return _base[prop]
 
@@ -77,7 +77,7 @@ def run_one(path):
         except RuntimeError as e:
             return name, 'STALE-ANCHOR', str(e)[:160]
         try:
-            F = Facts(extract.extract('default', repo=d, manifest_dir=d))
+            F = Facts.build(extract.extract('default', repo=d, manifest_dir=d))
         except extract.ExtractError as e:
             return name, 'BROKEN-MUTANT', str(e)[-600:]
     finally:
@@ -114,7 +114,7 @@ def audit_for(prop, repo='/repo', limit=None):
     out = {'mutants_detected': 0, 'mutants_missed': [], 'refactors_silent': 0, 'refactor_alarms': [], 'seeds_detected': 0, 'seeds_missed': [],
            'skipped': [], 'entries': []}
     files = sorted(glob.glob(os.path.join(VERIF, 'mutants', '*.json')))
-    base = {v['key'] for v in violations_for(prop, Facts(extract.extract('default', repo=repo)))}
+    base = {v['key'] for v in violations_for(prop, Facts.build(extract.extract('default', repo=repo)))}
     for path in files:
         m = json.load(open(path))
         name = os.path.basename(path)[:-5]
@@ -129,7 +129,7 @@ def audit_for(prop, repo='/repo', limit=None):
                 out['skipped'].append(name)
                 continue
             try:
-                F = Facts(extract.extract('default', repo=d, manifest_dir=d))
+                F = Facts.build(extract.extract('default', repo=d, manifest_dir=d))
             except extract.ExtractError:
                 out['skipped'].append(name)
                 continue
@@ -157,7 +157,7 @@ def audit_for(prop, repo='/repo', limit=None):
                 out['skipped'].append(name)
                 continue
             try:
-                F = Facts(extract.extract('default', repo=d, manifest_dir=d))
+                F = Facts.build(extract.extract('default', repo=d, manifest_dir=d))
             except extract.ExtractError:
                 out['skipped'].append(name)
                 continue
